@@ -29,7 +29,8 @@ from .base import (
     ValidationError,
 )
 from ..config import Config
-from ..errors import StorageError
+from ..auth import Action
+from ..errors import StorageError, AuthenticationError
 
 
 # ids: b'\x00<32 bytes of id>'
@@ -702,6 +703,9 @@ class LMDBStorage(BaseStorage):
             raise StorageError("invalid: Bad JSON")
 
         await self.validate_event(event, Config)
+        # check authentication
+        if not await self.authenticator.can_do(auth_token, Action.save.value, event):
+            raise AuthenticationError("restricted: permission denied")
 
         if not event.is_ephemeral:
             self.check_storable(event)
